@@ -1,1 +1,159 @@
-fn main(){}
+//! Harness binary for the BTOR2 parser (flussab-btor2).
+mod catalogue;
+mod gen;
+mod subjects;
+
+use mc_core::generic::{self, C01Params, C04Params, Corruption};
+use mc_core::report::{parse_cli, write_out, Report};
+use mc_core::subject::Subject;
+use mc_core::{Budget, Tier, Value};
+
+#[global_allocator]
+static ALLOC: mc_core::alloc::Counting = mc_core::alloc::Counting;
+
+const FORMATS: [&str; 1] = ["btor2"];
+
+fn main() {
+    mc_core::subject::install_quiet_panic_hook();
+    let cli = parse_cli();
+    let t0 = std::time::Instant::now();
+    let tier = cli.tier;
+    if cli.cmd == "replay" {
+        let text = std::fs::read_to_string(cli.file.as_ref().expect("replay needs a file")).unwrap();
+        let v: Value = mc_core::serde_json::from_str(&text).unwrap();
+        let v = if v.get("replay").is_some() { v["replay"].clone() } else { v };
+        let subject = subjects::by_name(v["subject"].as_str().unwrap());
+        let (violated, text) = match v["property"].as_str().unwrap_or("") {
+            "C01" => generic::c01_replay(subject.as_ref(), &v),
+            "C04" => generic::c04_replay(subject.as_ref(), &v),
+            "C05" => generic::c05_replay(subject.as_ref(), &v),
+            "C08" => generic::c08_replay(subject.as_ref(), &v),
+            "C09" => generic::c09_replay(subject.as_ref(), &v),
+            other => {
+                eprintln!("mc-btor2: cannot replay property {other:?}");
+                std::process::exit(2);
+            }
+        };
+        println!("{text}");
+        println!("{}", if violated { "REPLAY: property violated" } else { "REPLAY: property holds" });
+        std::process::exit(if violated { 1 } else { 0 });
+    }
+    let mut report = Report::new();
+    let budget = Budget::new(tier.pick(40.0, 1500.0));
+    let rule: String = match cli.cmd.as_str() {
+        "C01" => {
+            for kind in FORMATS {
+                let subs = subjects::subjects();
+                let inp = gen::inputs(tier);
+                let params = C01Params {
+                    all_len: tier.pick(8, 12),
+                    dev_bound: tier.pick(1, 2),
+                    dev_interrupts: 1,
+                    dev2_max_len: 120,
+                    uni: tier.pick(vec![1, 2, 3, 7, 8, 9], (1..=17).collect()),
+                    chunks: tier.pick(vec![Some(1), Some(3), Some(8), None], vec![Some(1), Some(2), Some(3), Some(7), Some(8), Some(9), Some(16), None]),
+                };
+                let docs = inp.all();
+                report.count(&format!("{kind}_documents"), docs.len() as u64);
+                report.count(&format!("{kind}_subjects"), subs.len() as u64);
+                generic::c01(&subs, &docs, &params, &budget, &mut report);
+                if !budget.expired() {
+                    report.completed.push(format!("{kind}: {} documents (corpus {}, single-edit neighbours {}, token sequences {}) x {} subjects: ALL(n<={}) + DEV({}) with <=1 Interrupted + UNI{:?} x chunks {:?}", docs.len(), inp.corpus.len(), inp.neighbours.len(), inp.sequences.len(), subs.len(), params.all_len, params.dev_bound, params.uni, params.chunks));
+                }
+                sample_docs(&mut report, kind, &inp.corpus);
+            }
+            report.traces = report.evaluations;
+            "inputs = hand-written corpus of well-formed documents per parser + all their single-edit neighbours (every truncation, every byte deleted, every byte replaced by each of 8 marker bytes) + all concatenations of up to 2 (quick) / 3 (thorough) tokens of a per-format token alphabet, deduplicated; schedules = every composition of the input into reads (with up to one Interrupted anywhere) for short inputs, all schedules with a bounded number of deviations from the one-shot schedule for longer ones, and uniform grains x chunk sizes; every execution compared with the one-shot execution. Non-trivial = at least two successful reads (a refill happened mid-document)".into()
+        }
+        "C04" => {
+            for kind in FORMATS {
+                let subs = subjects::subjects();
+                let inp = gen::inputs(tier);
+                let mut docs = inp.corpus.clone();
+                if tier == Tier::Thorough {
+                    docs.extend(inp.neighbours.iter().cloned());
+                } else {
+                    // truncations and garbage neighbours of the two shortest well-formed documents
+                    docs.extend(inp.neighbours.iter().filter(|d| d.bytes.len() <= 30).cloned());
+                }
+                docs.extend(inp.sequences.iter().filter(|d| d.bytes.len() <= 12).cloned());
+                let docs = generic::dedup_docs(docs);
+                let params = C04Params { max_len: tier.pick(120, 400), uni: vec![1, 3], dev_bound: 1, dev_max_len: tier.pick(40, 120) };
+                report.count(&format!("{kind}_documents"), docs.len() as u64);
+                generic::c04(&subs, &docs, &params, &budget, &mut report);
+                if !budget.expired() {
+                    report.completed.push(format!("{kind}: {} documents x {} subjects x every fault offset 0..=len x {{one-shot, UNI(1), UNI(3) (chunk default and =grain), all single cuts for len<={}}}", docs.len(), subs.len(), params.dev_max_len));
+                }
+                sample_docs(&mut report, kind, &inp.corpus);
+            }
+            report.traces = report.evaluations;
+            "every document x every fault offset k in 0..=len (the source delivers k bytes, then fails permanently) x schedules of the delivered prefix; compared with the fault-free run. Non-trivial = fault offset strictly inside a token or at the very end (after a construct that accepts end of input)".into()
+        }
+        "C05" => {
+            for kind in FORMATS {
+                let subs = subjects::subjects();
+                let inp = gen::inputs(tier);
+                let docs = inp.all();
+                report.count(&format!("{kind}_documents"), docs.len() as u64);
+                let units = generic::c05_units(&subs, &docs);
+                let total = mc_core::par::par_fold(units.len(), mc_core::threads(), Report::new, |acc, i| {
+                    let (si, di) = units[i];
+                    generic::c05_unit(subs[si].as_ref(), &docs[di].bytes, acc);
+                    acc.states += 1;
+                    acc.nontrivial += 1;
+                }, |a, b| a.merge(b));
+                report.merge(total);
+                report.completed.push(format!("{kind}: {} documents x {} subjects x {{one-shot, 1 byte per read with chunk 1}}", docs.len(), subs.len()));
+                sample_docs(&mut report, kind, &inp.sequences);
+            }
+            report.traces = report.evaluations;
+            "every document of the generated families x every subject x {one-shot, byte-wise}: the run must return a value (no panic incl. overflow / debug assertion in the checked build), within 2 s, with peak requested heap <= 64 x consumed bytes + 128 KiB + 4 chunks (counting allocator, per thread). Non-trivial: every case (each is a distinct input x subject)".into()
+        }
+        "C08" => {
+            for kind in FORMATS {
+                let subs = subjects::subjects();
+                let inp = gen::inputs(tier);
+                let docs = inp.all();
+                let cat = catalogue::corruptions();
+                report.count(&format!("{kind}_corruptions"), cat.len() as u64);
+                let mut pairs: Vec<(usize, Corruption)> = Vec::new();
+                for c in cat {
+                    for si in 0..subs.len() {
+                        pairs.push((si, Corruption { doc: c.doc.clone(), line: c.line, col_first: c.col_first, col_last: c.col_last, what: c.what.clone() }));
+                    }
+                }
+                generic::c08(&subs, &docs, &pairs, tier, &budget, &mut report);
+                report.completed.push(format!("{kind}: in-range clause on {} documents x {} subjects x schedules; exact-location clause on {} (corruption, subject) pairs", docs.len(), subs.len(), pairs.len()));
+                sample_docs(&mut report, kind, &inp.corpus);
+            }
+            report.traces = report.evaluations;
+            "(a) every generated document x subject x {one-shot, byte-wise with chunk 1, 3 bytes with chunk 3, byte-wise, 7 bytes with chunk 16}: a reported syntax error must lie inside the input (1<=line<=lines+1, 1<=column<=len(line)+1); (b) well-formed base documents x every token x catalogue {garbage token, overflowing number, literal/group out of range, missing separator, clause count off by one}: line = the token's line, column on the token. Non-trivial = runs ending in a syntax error".into()
+        }
+        "C09" => {
+            for kind in FORMATS {
+                let subs = subjects::subjects();
+                let inp = gen::inputs(tier);
+                generic::c09(&subs, &inp.corpus, tier, &budget, &mut report);
+                report.completed.push(format!("{kind}: {} corpus documents x {} streaming subjects, line gated source, DEV(1..2) x chunk sizes", inp.corpus.len(), subs.len()));
+                sample_docs(&mut report, kind, &inp.corpus);
+            }
+            report.traces = report.evaluations;
+            "every well-formed corpus document x streaming subject, delivered by a source that hands out at most the rest of the current line per read (choice: any shorter amount; deviation bounded) x chunk sizes; at the moment each item is returned the source must not have been asked beyond the line that completes the item (completing line = line containing the end of the shortest prefix on which the parser, given end of input, returns the same item)".into()
+        }
+        other => {
+            eprintln!("mc-btor2: unknown property {other:?}");
+            std::process::exit(2);
+        }
+    };
+    let v = report.to_json(&cli.cmd, "btor2", tier.name(), t0.elapsed().as_secs_f64(), &rule);
+    write_out(&cli, &v);
+}
+
+fn sample_docs(report: &mut Report, kind: &str, docs: &[mc_core::generic::Doc]) {
+    for d in docs.iter().skip(1).take(1) {
+        report.sample(mc_core::json!({"family": kind, "document": d.name, "bytes": mc_core::show(&d.bytes)}));
+    }
+}
+
+#[allow(dead_code)]
+fn unused(_: &dyn Subject) {}
